@@ -89,7 +89,9 @@ func (man *chunkManager) OnChunkConsumed(chunk base.LogChunk) {
 
 func (man *chunkManager) OnChunkLeftover(chunk base.LogChunk) {
 	man.logger.Debugf("save leftover id=%s len=%d", chunk.ID, len(chunk.Data))
-	man.operator.UnloadChunk(&chunk)
+	if !man.UnloadOrDropChunk(&chunk) {
+		return // not on disk (no directory, quota reached or I/O error): counted as dropped, not as left over
+	}
 	man.metrics.pendingChunks.Dec()
 	man.metrics.leftoverChunksTotal.Inc()
 }
